@@ -12,7 +12,7 @@
 # See the License for the specific language governing permissions and
 # limitations under the License.
 import ast
-from typing import List, Tuple, get_args
+from typing import List, Tuple, get_args, get_origin
 
 from sympy import Symbol
 from sympy.logic import ITE, And, Not, Or, Xor, false, true
@@ -104,7 +104,7 @@ def translate_expression(expr, env: Env) -> TExp:  # noqa: C901
         def bit_names(t, base):
             if hasattr(t, "BIT_SIZE"):
                 return [f"{base}.{i}" for i in range(t.BIT_SIZE)]
-            if len(get_args(t)) > 0:
+            if len(get_args(t)) > 0 or get_origin(t) is tuple:
                 return [
                     n
                     for i, a in enumerate(get_args(t))
@@ -117,8 +117,9 @@ def translate_expression(expr, env: Env) -> TExp:  # noqa: C901
                 inner_type,
                 [Symbol(f"{sn}.{i}") for i in range(inner_type.BIT_SIZE)],
             )
-        elif len(get_args(inner_type)) > 0:
-            # A tuple-typed element: the flat list of its bits, as a tuple-typed name
+        elif len(get_args(inner_type)) > 0 or get_origin(inner_type) is tuple:
+            # A tuple-typed element (an empty tuple has no bits): the flat list of its
+            # bits, as a tuple-typed name
             return (inner_type, [Symbol(n) for n in bit_names(inner_type, sn)])
         else:
             return (inner_type, Symbol(sn))
